@@ -150,7 +150,12 @@ def kani_part(prop, tier, only, scratch_tag):
                 continue
             os.makedirs(REPLAYS, exist_ok=True)
             rp = os.path.join(REPLAYS, "%s-%s.rs" % (prop, re.sub(r"\W+", "_", v["ob"]["name"])[:80]))
-            test_src, raw = kani.concrete_playback(sc, h, v["desc"])
+            n_replayed = sum(1 for x in violations if x.get("replay"))
+            if n_replayed >= 2:
+                # replaying costs a re-verification each; the first two counterexamples are replayed
+                test_src, raw = None, "(not replayed: two counterexamples of this run were already replayed)"
+            else:
+                test_src, raw = kani.concrete_playback(sc, h, v["desc"])
             hdr = ["// replay for property %s" % prop,
                    "// failed obligation: %s" % v["ob"]["name"],
                    "// clause: %s" % v["ob"].get("text", ""),
